@@ -101,6 +101,9 @@ func (ec *evalCtx) evalCall(call *ast.CallExpr) Value {
 		ec.genHook(call, calleeFunc(ec.info, call), recv, args)
 	}
 	v := ec.callWith(call, recv, args)
+	if ec.fc.gen != nil {
+		ec.genPostHook(call, calleeFunc(ec.info, call), v)
+	}
 	ec.fc.applyUses(ec.st, "after "+ec.fc.callTag[call])
 	return v
 }
